@@ -2,7 +2,8 @@
 from . import core, conn, hist
 
 CATALOGUE = ["noauth", "plain", "emptysig", "shortsig", "randsig", "wrongkey", "wrongsid", "bmcsid", "zerosid",
-             "badpad", "padover", "padzero"]
+             "badpad", "padover", "padzero", "v15none", "v15md5"]
+CONTROLS = ("valid", "pad16ok")
 
 RULE = ("for every suite with integrity (all 9) and commands of the pool: (1) every forged reply of the catalogue {authenticated flag "
         "cleared; unsigned plaintext; empty / short / random AuthCode; signed with another key; addressed to another / the BMC's / "
@@ -35,7 +36,10 @@ def run(ch, build):
     for k, su in enumerate(hist.SUITES):
         # (1) catalogue
         for c in (cmds_fixed if not ch.quick() else rng.sample(cmds_fixed, 3)):
-            scn = {"bmc": conn.default_bmc(seed=100 + k, suites=[[100, su[0], su[1], su[2]]]), "timeout_ms": 40, "steps": [
+            # (a BMC may number its sessions from 1 - the ID this console always uses for its own side: then "the session's
+            # ID" no longer tells the two directions apart)
+            scn = {"bmc": conn.default_bmc(seed=100 + k, suites=[[100, su[0], su[1], su[2]]], **({"first_session_id": 1} if (k + len(scns)) % 2 else {})),
+                   "timeout_ms": 40, "steps": [
                 {"op": "open", "user": "admin", "password": b"secret".hex(), "priv": 4, "lookup": True, "suites": [list(su)]}]}
             # every pad length (0..15, through the length of the forged value) x every position of the one wrong pad byte
             pads = ["padbyte:%d:%d" % (e, k) for e in range(16) for k in range(15)]
@@ -46,7 +50,11 @@ def run(ch, build):
                     ["padmulti:%d:%d" % (rng.randrange(16), k) for k in range(4)] + ["padmulti:%d:%d" % (e, 0) for e in rng.sample(range(16), 3)]
             # a pad longer than 15 bytes whose every byte is right (01 02 .. N, N), on a ciphertext long enough to hold it
             pads += ["padlong:%d" % n for n in ((17, 24, 40, 104, 248) if not ch.quick() else (17, rng.choice([24, 40, 104]), 248))]
-            for f in CATALOGUE + pads + ["valid"]:
+            # the 16-byte form of the pad (01 .. 10, 10 behind a message that fills its block): each of its bytes wrong in turn
+            pads += ["pad16:%d" % k for k in (range(16) if not ch.quick() else [0, 15] + rng.sample(range(1, 15), 3))]
+            for f in CATALOGUE + pads + ["valid", "pad16ok"]:
+                if f == "bmcsid" and scn["bmc"].get("first_session_id") == 1:
+                    continue        # both IDs are 1 there: a packet addressed to "the BMC's ID" is addressed correctly
                 scn["steps"].append({"op": "cmd", "conn": "session", "cmd": c, "script": ["forge:" + f, "ok"], "forgery": f})
             scns.append(scn)
         # (2) bit flips and truncations of the authentic reply: learn its length from a clean run first
@@ -96,7 +104,7 @@ def run(ch, build):
                         for (cc, d) in al)
         f = step.get("forgery")
         nfam[f or "mutation"] = nfam.get(f or "mutation", 0) + 1
-        if f == "valid":
+        if f in CONTROLS:
             # control: the forged value (0xA5...) is accepted, so the catalogue exercises the acceptance path
             if len(res["sent"]) != 1:
                 ch.corr_break(desc, dict(detail, what="control forgery (correctly signed and encrypted) was not accepted: the catalogue is vacuous"))
